@@ -1081,9 +1081,9 @@ lua_statements = [
             "{LUA_userdata_var}->{LUA_userdata_member} ="
                 "\t new {namespace_scope}{cxx_class}({cxx_call_list});",
             "/* Add the metatable to the stack. */",
-            'luaL_getmetatable(L, "{LUA_metadata}");',
+            'luaL_getmetatable({LUA_state_var}, "{LUA_metadata}");',
             "/* Set the metatable on the userdata. */",
-            "lua_setmetatable(L, -2);",
+            "lua_setmetatable({LUA_state_var}, -2);",
         ],
     ),
     dict(
